@@ -311,7 +311,8 @@ def detect_cfg(ck, exe_nls, exe_model):
 def run_cases(ck, cases, exe_nls, exe_model, cfg=None):
     cfg = cfg or os.environ.get("VERIF_C19_FORCE_CFG") or detect_cfg(ck, exe_nls, exe_model)
     hooks = nls_has_hooks()
-    rc1, impl_out, e1 = core.run_sharded(core.harness_bin("c19"), [exe_nls, "--scratch", scratch_dir()] + (["--state"] if hooks else []), cases, timeout=3400)
+    rc1, impl_out, e1 = core.run_sharded(core.harness_bin("c19"), [exe_nls, "--scratch", scratch_dir()] + (["--state"] if hooks else []), cases,
+                                         timeout=3400 if len(cases) < 5000 else 20000)
     rc2, model_out, e2 = core.run_sharded(exe_model, [cfg, "state"], cases)
     rc3, patched_out, e3 = core.run_sharded(exe_model, ["11"], cases)
     if rc1 or rc2 or rc3:
@@ -405,7 +406,7 @@ def run(ck):
     g = Gen(rng.fork())
     cases = corpus()
     ncorp = len(cases)
-    n = 1200 if ck.tier == "quick" else 20000
+    n = 1200 if ck.tier == "quick" else 8000
     if os.environ.get("VERIF_C19_N"):            # only for sanity-testing the check itself (mutants)
         n = int(os.environ["VERIF_C19_N"])
     for i in range(n):
